@@ -12,7 +12,7 @@ from fractions import Fraction
 import z3
 
 from vlib import env, gen
-from vlib.zrun import wrapper_exc, explore_and_prove, eq_term, concretize, pyrepr
+from vlib.zrun import twin_verdict, wrapper_exc, explore_and_prove, eq_term, concretize, pyrepr
 from vlib.zsym import Real, SymNum, SymTypeError, lift, model_value
 
 META = {
@@ -127,7 +127,7 @@ def _task_euler(systems):
                                           replay_src=REPLAY % dict(rxns=rxn_strs, y=pyrepr(yv), f=pyrepr(fv))))
         if tw is None:
             ot = explore_and_prove(fn, assum, lambda p: goal(p, True), max_paths=60000, deadline_s=60, max_fail=1, numpy_div=True)
-            tw = "violated" if ot.failed else "passed"
+            tw = twin_verdict(ot)
     res["twin"] = tw or "n/a"
     res["sample"] = {"system": systems[0], "state": "symbolic y >= 0", "derivative": "arbitrary symbolic f"}
     res["status"] = "violation" if res["violations"] else ("inconclusive" if res["inconclusive"] else "discharged")
